@@ -154,6 +154,31 @@ Section CKD.
       unfold slice. cbn [app skipn Nat.sub]. rewrite <- Hh. apply firstn_app_exact.
     Qed.
 
+    (* HierarchicalDeterministic.get_public_key(i) and get_private_key(i) name the same address:
+       the address handed out for (chain c, index i) from the account PUBLIC key is the address of the
+       key derived from the account PRIVATE key along m/c/i *)
+    Theorem chain_address_private prefix k c i : priv_ok k -> c < HARDENED -> i < HARDENED ->
+      chain_address hmac512 pub_add hash160 dsha prefix (neuter k) c i =
+      bind (derive k [c; i]) (fun sk => address hash160 dsha prefix (pubkey_of pub sk)).
+    Proof.
+      intros Hk Hc Hi.
+      pose proof (derive_public_matches_private [c; i] k Hk ltac:(repeat constructor; assumption)) as H.
+      unfold chain_address. cbn [C06.derive] in *.
+      unfold C06.ckd at 1 in H. cbn [C06.neuter xk_kind] in H. fold (neuter k) in H.
+      destruct (ckd_pub (neuter k) c) as [ck|e] eqn:E1; cbn [bind] in *.
+      - unfold C06.ckd at 1 in H. rewrite (ckd_pub_kind _ _ _ E1) in H.
+        destruct (ckd_pub ck i) as [ci|e] eqn:E2; cbn [bind] in *.
+        + destruct (ckd k c) as [sc|]; cbn [bind res_map] in H; [|discriminate].
+          destruct (ckd sc i) as [si|]; cbn [bind res_map] in H; [|discriminate].
+          injection H as ->. reflexivity.
+        + destruct (ckd k c) as [sc|]; cbn [bind res_map] in H; [|discriminate].
+          destruct (ckd sc i) as [si|]; cbn [bind res_map] in H; [discriminate|].
+          injection H as ->. reflexivity.
+      - destruct (ckd k c) as [sc|]; cbn [bind res_map] in H.
+        + destruct (ckd sc i); cbn [bind res_map] in H; discriminate.
+        + injection H as ->. reflexivity.
+    Qed.
+
     (* equal addresses come from equal key hashes *)
     Theorem address_injective prefix pk1 pk2 a c r : prefix = c :: r -> c <> x00 ->
       (4 <= length (dsha (prefix ++ hash160 pk1)))%nat -> (4 <= length (dsha (prefix ++ hash160 pk2)))%nat ->
